@@ -227,6 +227,7 @@ class Verdict:
     def __init__(self, prop, out_of_scope=None):
         self.prop = prop
         self.out_of_scope = out_of_scope or (lambda sig: False)
+        self._best = {}
         self.skipped = 0
         self.known = [f for f in load_findings() if f.get("status") == "known" and prop in f["properties"]]
         self.violations = []      # (signature dict, replay path)
@@ -249,8 +250,12 @@ class Verdict:
         replay_obj = dict(replay_obj)
         replay_obj["property"] = self.prop
         replay_obj["signature"] = sig
-        with open(path, "w") as f:
-            json.dump(replay_obj, f)
+        # one replay file per signature: keep the shortest history seen
+        n = len(replay_obj.get("history") or [])
+        if path not in self._best or n < self._best[path]:
+            self._best[path] = n
+            with open(path, "w") as f:
+                json.dump(replay_obj, f)
         self.violations.append((sig, path))
         return True
 
